@@ -10,6 +10,7 @@ DECIDED = ("R1 the listener's request queue is FIFO (push_back in receive_from_n
            "listener unbinds (discarding queued requests); R6 both ends mirror addresses: accept builds SocketPair(my_addr, origin).")
 NOT_DECIDED = ("pairing of concrete addresses at run time, ordering across hosts under reordering latencies, the established "
                "counts as numbers.")
+DECIDED += "; R7 reference-count agreement: ref_ct starts at N, close_stream_half decrements by one and is called by exactly the N Drop impls of the halves TcpStream::new builds; everything else removes an entry with reset_stream"
 ASSUMPTIONS = ["dropping a oneshot::Sender makes the receiver resolve with RecvError (tokio contract)"]
 
 DEQUE = "turmoil::host::ServerSocket::deque"
